@@ -6,8 +6,11 @@
 (* configurations, recorded by harness/chain, is checked against           *)
 (* Hardfork.tla.  One ndjson line per event:                               *)
 (*   {"ev":"Start","c":[v2,v3,v4,v5],"ok":b}   start attempt and its result *)
-(*   {"ev":"AddBlock","no":n,"ver":v,"fmt":"v1"|"v2"}  version the node     *)
-(*        gave the block, format in which its receipts were really stored  *)
+(*   {"ev":"AddBlock","no":n,"ver":v,"fmt":"v1"|"v2","pver":p,"pid":b}     *)
+(*        version the node gave the block, format in which its receipts    *)
+(*        were really stored; pver: the version the PARENT block held in    *)
+(*        memory carries in its header after the child's header info was   *)
+(*        derived from it, pid: its header still hashes to its identifier  *)
 (*   {"ev":"Read","no":n,"ver":v,"fmt":f,"same":b}  after a restart: the    *)
 (*        version the node now gives block n, the format its decoder used, *)
 (*        whether the receipts read back equal what was written            *)
@@ -41,6 +44,7 @@ TraceStop == IsEvent("Stop") /\ Stop /\ l' = l + 1
 TraceAddBlock == /\ IsEvent("AddBlock")
                  /\ AddBlockWith(Ev.ver, Ev.fmt)
                  /\ Ev.no = best + 1
+                 /\ Ev.pver = IdVer(best) /\ Ev.pid              \* ParentUnchangedByChild, observed
                  /\ Strict => (Ev.ver = Version(cfg, best + 1) /\ Ev.fmt = Fmt(cfg, best + 1))
                  /\ l' = l + 1
 \* reading an existing block: no change of the model state, but what the node reports must be the history
@@ -51,6 +55,7 @@ TraceRead == /\ IsEvent("Read")
              /\ l' = l + 1
 TraceReset == /\ IsEvent("Reset")
               /\ up' = FALSE /\ db' = NoDb /\ best' = 0 /\ assigned' = <<>> /\ rfmt' = <<>>
+              /\ hdr' = <<0>> /\ buf' = <<GenesisVer>>
               /\ UNCHANGED <<cfg, starts>>
               /\ lastAct' = [name |-> "Reset"]
               /\ l' = l + 1
